@@ -18,6 +18,9 @@ pub fn err_json(e: &IppParseError) -> J {
         IppParseError::InvalidTag(t) => json!({"ok": false, "err": "InvalidTag", "tag": t}),
         IppParseError::InvalidCollection => json!({"ok": false, "err": "InvalidCollection"}),
         IppParseError::IoError(e) => json!({"ok": false, "err": "Io", "kind": format!("{:?}", e.kind())}),
+        // error values the library may grow later are still error values
+        #[allow(unreachable_patterns)]
+        other => json!({"ok": false, "err": "Other", "text": format!("{other:?}")}),
     }
 }
 
